@@ -36,6 +36,11 @@ def aesthetics(flux, invvar, method='traditional'):
         A cleaned-up spectrum.
     """
     badpts = invvar == 0
+    if badpts.all():
+        #
+        # No good points at all: there is nothing to base nice values on.
+        #
+        return flux
     if badpts.any():
         if method == 'traditional':
             newflux = djs_maskinterp(flux, invvar == 0, const=True)
